@@ -74,4 +74,11 @@ VARIANTS = [
     dict(id='cxx-mutexwrapped-members-renamed-ok', prop=['C11', 'C06'], expect='silent',
          edits=[dict(file=MW, old='m_protectee', new='m_value', count=2),
                 dict(file=MW, old='m_mutex', new='m_guard', count=2)]),
+    # the logger shared by all client threads must not carry changeable state (found by an independent seeded change)
+    dict(id='cxx-ilog-line-buffer-member', prop='C11', expect='violation', rule='C11.shared-log',
+         edits=[dict(file='support_files/ilog.py', old='    const ILog subLog;', new='    const ILog subLog;\n    std::string m_line;')]),
+    dict(id='cxx-ilog-mutable-counter', prop='C11', expect='violation', rule='C11.shared-log',
+         edits=[dict(file='support_files/ilog.py', old='    const ILog subLog;', new='    const ILog subLog;\n    mutable int m_count = 0;')]),
+    dict(id='cxx-ilog-const-member-ok', prop=['C11', 'C06'], expect='silent',
+         edits=[dict(file='support_files/ilog.py', old='    const ILog subLog;', new='    const ILog subLog;\n    const int level = 0;')]),
 ]
